@@ -989,12 +989,19 @@ func callBuiltin(caller *frame, callpos token.Pos, fn *ssa.Builtin, args []value
 			ext := arg0[:n]
 			for i := len(arg0); i < n; i++ {
 				cur.logStore(&ext[i])
+				if cur.alog != nil {
+					cur.access(&ext[i], true, false)
+				}
 			}
 			if cur.onAppendInPlace != nil {
 				cur.onAppendInPlace(caller, arg0, len(add))
 			}
 		}
-		return append(arg0, add...)
+		res := append(arg0, add...)
+		if cur.alog != nil && (len(arg0)+len(add) > cap(arg0)) {
+			cur.own(res, 0) // a freshly allocated backing array belongs to the appending thread
+		}
+		return res
 
 	case "copy": // copy([]T, []T) int or copy([]byte, string) int
 		var src []value
@@ -1010,6 +1017,12 @@ func callBuiltin(caller *frame, callpos token.Pos, fn *ssa.Builtin, args []value
 		}
 		for i := 0; i < n; i++ {
 			cur.logStore(&dst[i])
+			if cur.alog != nil {
+				cur.access(&dst[i], true, false)
+				if !isStrVal(args[1]) {
+					cur.access(&src[i], false, false)
+				}
+			}
 		}
 		if cur.watch != nil {
 			cur.watchWrite(dst[:n])
